@@ -104,12 +104,12 @@ type c38RDataset struct {
 }
 
 type c38RField struct {
-	Name  string
-	V2    string
-	Gen   func(rng *verifkit.Rand) []c38Value // sweep values (fixed representatives + drawn)
-	Want  func(v any) any
-	Req   bool
-	ReqV  func(rng *verifkit.Rand) any // value when only needed because it is required
+	Name string
+	V2   string
+	Gen  func(rng *verifkit.Rand) []c38Value // sweep values (fixed representatives + drawn)
+	Want func(v any) any
+	Req  bool
+	ReqV func(rng *verifkit.Rand) any // value when only needed because it is required
 }
 
 func c38FieldList(rng *verifkit.Rand) []string {
@@ -634,8 +634,8 @@ type c38Focused struct {
 // ---- the check -------------------------------------------------------------------------
 
 const c38RulesRuleText = "RULES sweep: each v1 sampler type with its required fields plus one optional element (every field, every value class; every rule aspect, condition value class and downstream sampler field) as the only dataset, in TOML/YAML/JSON; " +
-		"files: a default sampler of any v1 type plus 0..4 datasets with PRNG-chosen elements, rules with conditions and downstream samplers, three key casings, one PRNG-chosen format. " +
-		"Non-trivial = at least one non-default v1 field; distinct = distinct (sampler,element,class,format) resp. sampler-type sequences"
+	"files: a default sampler of any v1 type plus 0..4 datasets with PRNG-chosen elements, rules with conditions and downstream samplers, three key casings, one PRNG-chosen format. " +
+	"Non-trivial = at least one non-default v1 field; distinct = distinct (sampler,element,class,format) resp. sampler-type sequences"
 
 func c38RulesPart(t *testing.T, run *verifkit.Run) {
 	run.Assume("v1 sampler types and fields are those of /repo/rules_complete.1.x.toml plus ClearFrequencySec (the v1 name the converter itself translates) and the v1 condition operators exists/not-exists (which take no value); v1 keys are case-insensitive")
